@@ -225,17 +225,24 @@ def loadCore (cfg : Cfg) (s0 : St) : St × Except EErr Ret :=
     | .ok l => ({ s0 with pol := new, links := l }, .ok .unit)
   else ({ s0 with pol := new }, .ok .unit)
 
+/-- `Policy.add_policy` / `add_policies` (repaired, F27): a grouping rule with fewer fields than its role definition
+    has `_` raises `TypeError` before anything is stored -/
+def shortFor (cfg : Cfg) (sec : Sec) (rs : List Rule) : Bool :=
+  sec != .p && rs.any fun r => r.length < cfg.count sec
+
 /-- one call: new state and result, or the exception.  NB: when a call raises *after* it changed something (only
     possible for ill-sized grouping rules) the state carried by the exception is the changed one. -/
 def step (cfg : Cfg) (s : St) : Op → St × Except EErr Ret
   | .add sec r =>
     let (l, ok) := Policy.add none (s.pol.get sec) r
     if !ok then (s, .ok (.bool false))
+    else if shortFor cfg sec [r] then (s, .error .shortGroupingRule)   -- repaired (F27): refused before anything is stored
     else
       finish cfg (persist cfg { s with pol := s.pol.set sec l } (.addPolicy sec r) (exOnly cfg (.forAddPolicy sec r))) sec true [r] (.bool true)
   | .addMany sec rs =>
     let (l, ok) := Policy.addMany none (s.pol.get sec) rs
     if !ok then (s, .ok (.bool false))
+    else if shortFor cfg sec rs then (s, .error .shortGroupingRule)
     else
       finish cfg (persist cfg { s with pol := s.pol.set sec l } (.addPolicies sec rs) (exOnly cfg (.forAddPolicies sec rs))) sec true rs (.bool true)
   | .remove sec r =>
